@@ -298,9 +298,14 @@ def matchfile_from_alignment(
 
             duration_symb = Fraction(duration_divs, dpq * 4)
 
-            beat = int((onset_divs - msd) // dpq)
+            # beat within the measure in units of the time signature's beat
+            # (not quarters), offset within that beat in whole notes
+            ts_den = int(ts_den)
+            beat = int(((onset_divs - msd) * ts_den) // (dpq * 4))
 
-            moffset_divs = Fraction(int(onset_divs - msd - beat * dpq), (dpq * 4))
+            moffset_divs = Fraction(
+                int((onset_divs - msd) * ts_den - beat * dpq * 4), (dpq * 4 * ts_den)
+            )
 
             if debug:
                 duration_beats = offset_beats - onset_beats
